@@ -11,6 +11,14 @@ def build():
     work = os.path.join(BUILD, "rust-harness")
     os.makedirs(work, exist_ok=True)
     shutil.copytree(os.path.join(SRC, "src"), os.path.join(work, "src"), dirs_exist_ok=True)
+    core = os.path.join(REPO, "src", "core")
+    for f in os.listdir(os.path.join(work, "src")):        # `include!("/repo/src/core/...")` follows VERIF_REPO too
+        if f.endswith(".rs"):
+            fp = os.path.join(work, "src", f)
+            txt = open(fp).read()
+            if 'include!("/repo/src/core' in txt and core != "/repo/src/core":
+                with open(fp, "w") as fh:
+                    fh.write(txt.replace('include!("/repo/src/core', 'include!("' + core))
     toml = open(os.path.join(SRC, "Cargo.toml")).read().replace("/repo/src/core", os.path.join(REPO, "src", "core"))
     with open(os.path.join(work, "Cargo.toml"), "w") as f:
         f.write(toml)
